@@ -82,11 +82,19 @@ def handleCompile (j : Json) : Json :=
                  | .ok cs2 => (cspecJson cs2).compress == (cspecJson cs).compress
                  | .error _ => false)
     | .error _ => true
+  -- C13 on the implementation's outcome: a document with an unknown interpreter, an unknown branching
+  -- type or an unknown pattern syntax is rejected (with whatever error)
+  let mustReject := match res with
+    | .error .interpreterNotFound => true
+    | .error (.unknownBranchingType _) => true
+    | .error (.badSyntax _) => true
+    | _ => false
+  let rejects := !mustReject || goPanic || (getObj? goDoc "err").isSome
   let feats : List String :=
     (match res with | .ok _ => ["compiles"] | .error e => ["err:" ++ errClassC e]) ++
     (if raw.patternSyntax == "json" then ["jsonSyntax"] else []) ++
     (if (raw.nodes.getD []).any (fun p => p.2.isNone) then ["nullNode"] else [])
-  Json.mkObj [("corr", corr), ("prop", boolsJson [("total", !goPanic), ("modelIdempotent", idem)]),
+  Json.mkObj [("corr", corr), ("prop", boolsJson [("total", !goPanic), ("modelIdempotent", idem), ("rejectsUnknown", rejects)]),
               ("model", mine), ("feat", jstrs feats), ("nontrivial", decide ((raw.nodes.getD []).length > 1)),
               ("key", doc.compress)]
 
